@@ -86,6 +86,10 @@ def settings(draw, program=None, fault_mix=False, max_iter=60):
     workers = draw(st.sampled_from([16, 3, 33, 2, 5, 1]))
     if draw(st.integers(0, 4)) == 0 and prog == 'HIP':
         inputs.append(['Reservoir Life Cycle', 'binomial', draw(st.integers(40, 100)), draw(gen.nice_floats(0.5, 0.9))])  # P(draw == 0) < 1e-12: the sample 0 would be an invalid life cycle
+    elif not fault_mix and draw(st.integers(0, 7)) == 0:
+        # discrete inputs only: distinct successful iterations may legitimately leave identical rows - each still has its row
+        inputs = [['Reservoir Life Cycle', 'binomial', draw(st.integers(40, 100)), draw(gen.nice_floats(0.5, 0.9))]] if prog == 'HIP' else \
+            [['Plant Lifetime', 'binomial', draw(st.integers(40, 80)), draw(gen.nice_floats(0.4, 0.6))]]
     return {'program': prog, 'inputs': inputs, 'outputs': list(outputs), 'iterations': iters, 'workers': workers, 'fault': fault,
             'final_newline': draw(st.integers(0, 5)) != 0}
 
